@@ -98,8 +98,11 @@ pub fn blind_sum(_s: &Secp256k1, positive: Vec<SecretKey>, negative: Vec<SecretK
 	core::mem::forget(negative);
 	Ok(key_of(r))
 }
+/// marker byte of a non-canonical scalar: the real `SecretKey::from_slice` refuses values that
+/// are zero or not below the group order; the model refuses exactly the keys carrying this marker
+pub const INVALID_KEY_MARK: u8 = 0xEE;
 pub fn secret_key_from_slice(_s: &Secp256k1, data: &[u8]) -> Result<SecretKey, Error> {
-	if data.len() != 32 {
+	if data.len() != 32 || data[31] == INVALID_KEY_MARK {
 		return Err(Error::InvalidSecretKey);
 	}
 	let mut k = [0u8; 32];
